@@ -338,6 +338,7 @@ func runC09(c *Ctx) {
 			}
 		}
 	}
+	runDevicePlumbing(c)
 	runDeviceChains(c)
 	runDevicePaths(c)
 	// the raw REQ socket devices are made of: every accepted message leaves through one pipe, once, in order
